@@ -129,8 +129,17 @@ pub fn ledger_counts(counts: &mut crate::util::Counts) {
         with_delays + l.cases_by_user_delay[0].swap(0, Ordering::SeqCst) + l.cases_by_user_delay[1].swap(0, Ordering::SeqCst));
 }
 
+/// value instances that were alive when the case began (owned by caches of earlier cases that were leaked after a classified hang)
+static CASE_BASE: std::sync::atomic::AtomicI64 = std::sync::atomic::AtomicI64::new(0);
+
+/// How many value instances are alive beyond those of earlier cases and the `stored` entries the cache holds now. At a quiescent point
+/// (nothing queued, every acknowledgement resolved, no reader) the harness itself owns none, so a positive number is a value the cache
+/// still owns without storing it.
+pub fn retained(stored: usize) -> i64 { live_values() - CASE_BASE.load(Ordering::SeqCst) - stored as i64 }
+
 /// Called before every case: how often user code is perturbed in this case (derived from seed and index, so that a replay draws the same).
 pub fn begin_case(seed: u64, index: u64) {
+    CASE_BASE.store(live_values(), Ordering::SeqCst);
     let draw = crate::util::mix(crate::util::mix(seed, index), 0x7E9D);
     let per_mille = [0u64, 0, 10, 40, 120, 350][(draw % 6) as usize];
     set_user_perturbation(draw >> 8, per_mille);
